@@ -1,10 +1,10 @@
 CONSTANTS
-  Workers <- Workers_wany
-  NTs <- NTs_wany
-  ThreadNames <- Threads_wany
+  Workers <- MCWorkers
+  NTs <- MCNTs
+  ThreadNames <- MCThreads
   WyFix = FALSE
   AllowSpurious = FALSE
-INIT Init_wany
+INIT MCInit
 NEXT Next
 CHECK_DEADLOCK TRUE
 INVARIANTS TypeOK NoBad FuncOnce ReadyImpliesRan GetsAgree DeallocOnce RefsSane ThenAfterReady TsWaitImpliesReady CountersSane AtEnd WhenAllReady WhenAnyReady CombFOnce
